@@ -46,6 +46,18 @@ func c07(c *core.Ctx) string {
 	}
 	c07Resp(c)
 	c07GzipPull(c)
+	// limits travel with the generation and with the one-shot stream: rules shared with C12 and C10
+	c.Rule("R-C07-7", "the path-level limit applied is the current generation's: a new router generation gets a fresh route cache (shared with R-C12-5)")
+	muxCacheFresh(c, "R-C07-7")
+	c.Alias("R-C10-3", "R-C07-8")
+	c.Alias("R-C10-2", "-")
+	c.Alias("R-C10-5", "-")
+	c.Rule("R-C10-3", "a streamed body is sent once: the retry wrapper is applied only when the request is not a stream, and never around the circuit breaker (shared with R-C10-3)")
+	c10Handle(c)
+	c.Alias("R-C10-3", "")
+	c.Alias("R-C10-2", "")
+	c.Alias("R-C10-5", "")
+	c.Drop("-")
 	return "Path-sensitive typestate over serveHTTP (fetch dominates dispatch, 413/400 mapping), value-source events for the effective limit selection at both levels, and an all-paths audit of the two FetchPayload implementations (default replacement, stream only for negative limits, allocation bounded by the limit, short reads reported, LimitReader + io.Copy probe on the chunked path) and of buildResponse/doHandle (failed fetch ⇒ no output response, 5xx). Not decided: the numeric comparison exactly at the limit."
 }
 
